@@ -133,7 +133,8 @@ fn check(s: &str) -> Result<bool, String> {
     match (&got, &want) {
         (Ok(g), Ok(w)) => {
             let gm = sgr::from_style(*g);
-            if gm != *w {
+            // (the number k < 16 and the k-th palette colour are the same colour)
+            if gm.canon() != w.canon() {
                 return Err(format!("parse({s:?}) = [{}], the words denote [{}]", gm.describe(), w.describe()));
             }
         }
@@ -206,7 +207,7 @@ fn check_roundtrip(m: &MStyle, variant: u8) -> Result<(), String> {
     let v = if variant % 3 == 1 && two_colours { 0 } else { variant };
     let text = print_style(m, v);
     match anstyle_git::parse(&text) {
-        Ok(st) if sgr::from_style(st) == *m => Ok(()),
+        Ok(st) if sgr::from_style(st).canon() == m.canon() => Ok(()),
         Ok(st) => Err(format!("[{}] printed as {text:?} parses back as [{}]", m.describe(), sgr::from_style(st).describe())),
         Err(e) => Err(format!("[{}] printed as {text:?} is rejected: {e}", m.describe())),
     }
